@@ -90,6 +90,30 @@ pub fn run(rest: &str) -> String {
     std::env::remove_var("INCLUDE_DIR");
     let timeout = Duration::from_millis(spec["timeout_ms"].as_u64().unwrap_or(4000));
     let script: Vec<Value> = spec["script"].as_array().cloned().unwrap_or_default();
+    // "jitter": seed -> snapshot tasks are delayed pseudo-randomly at their schedule points (older tasks may
+    // be overtaken by younger ones wherever the server itself does not order them)
+    #[cfg(feature = "verif")]
+    {
+        match spec["jitter"].as_u64() {
+            Some(seed) => {
+                lsp::verif_hooks::set_point_callback(Some(Arc::new(move |name: &'static str| {
+                    if !name.starts_with("task:") || name == "task:end" {
+                        return;
+                    }
+                    let t = lsp::verif_hooks::current_task().unwrap_or(0);
+                    let mut h = seed ^ (t.wrapping_mul(0x9E3779B97F4A7C15)) ^ (name.len() as u64).wrapping_mul(0xC2B2AE3D27D4EB4F);
+                    h ^= h >> 29;
+                    h = h.wrapping_mul(0xBF58476D1CE4E5B9);
+                    h ^= h >> 32;
+                    let ms = [0u64, 0, 5, 25, 60][(h % 5) as usize];
+                    if ms > 0 {
+                        std::thread::sleep(Duration::from_millis(ms));
+                    }
+                })));
+            }
+            None => lsp::verif_hooks::set_point_callback(None),
+        }
+    }
     let rt = tokio::runtime::Builder::new_multi_thread().worker_threads(2).enable_all().build().unwrap();
     let msgs: Arc<Mutex<Vec<Value>>> = Arc::new(Mutex::new(Vec::new()));
     let msgs2 = msgs.clone();
@@ -166,6 +190,8 @@ pub fn run(rest: &str) -> String {
         (timed_out, unanswered)
     });
     rt.shutdown_timeout(Duration::from_millis(200));
+    #[cfg(feature = "verif")]
+    lsp::verif_hooks::set_point_callback(None);
     let got = msgs.lock().unwrap().clone();
     let _ = std::fs::remove_dir_all(&dir);
     json!({"msgs": got, "timeout": timed_out, "unanswered": unanswered}).to_string()
